@@ -204,6 +204,15 @@ def run(report: core.Report):
                               f"{what} (outside the schema model, so nothing downstream sorts it)")
         else:
             r1p.ok()
+    r2p = report.rule("C10.2p", "Python: a first-wins / last-wins keyed selection made while iterating in set order uses a key that is "
+                                "injective on the elements (otherwise WHICH element is kept depends on the hash seed)", floor=1)
+    for q, ft in ta.funcs.items():
+        for node, key, kind in {(s_[0].lineno, ast.unparse(s_[1])): s_ for s_ in ft.selections}.values():
+            r2p.instance(f"{q}: {ast.unparse(node)[:80]}")
+            attr = key.attr if isinstance(key, ast.Attribute) else None
+            r2p.check(any(a == attr for (_, a) in INJECTIVE_KEYS), ft.fi.module.path, node.lineno, f"{q}: {ast.unparse(node)[:120]}",
+                      f"`{ast.unparse(key)}` is not a known injective key, and the iteration order comes from a set: {kind}, so the kept element "
+                      f"varies with PYTHONHASHSEED / id(); select with an injective key or sort the candidates first")
     report.set("set_derived_members", tainted)
     r1p.need(len(tainted) >= 8, "set-derived members (sources)", f"only {len(tainted)} found")
 
